@@ -66,7 +66,7 @@ def rdCOp : Rd (Option COp) := do
   | "bdump" => return some .bdump
   | "gt" | "cgt" => do let x ← Rd.int; let y ← Rd.int; return some (.gt x y)
   | "rz" => do let w ← Rd.int; let h ← Rd.int; return some (.rz w h)
-  | "it" | "cit" => do let ox ← Rd.int; let oy ← Rd.int; let w ← Rd.int; let h ← Rd.int; return some (.it ox oy w h)
+  | "it" | "cit" | "itb" | "iti" | "itp" => do let ox ← Rd.int; let oy ← Rd.int; let w ← Rd.int; let h ← Rd.int; return some (.it ox oy w h)
   | "dump" | "cdump" => return some .dump
   | _ => return some .bad
 
